@@ -370,6 +370,32 @@ theorem C05_rep_sequence_independent (tys : List Ty) (rows rows' : List (List (B
   rw [encRowsCells_eq tys rows vss h hok ht hwf.1.2 hwf.2, encRowsCells_eq tys rows' vss h' hok' ht' hwf.1.2 hwf.2]
   exact ⟨rfl, by simp [XdrSpec.enc]⟩
 
+/-- **for every value and every two representations** (the statement with the representation as a parameter):
+    `Rep` = dtype char (item width and signedness: any numeric char that maps to `ty` and can hold the values, e.g. int8 /
+    int16 for Int16, int32 / int64 / longlong for Int32, bool / uint8 for Byte), byte order, `step` ≥ 1 (the array is
+    every `step`-th item along the last axis of a larger C-contiguous buffer; 1 = contiguous), `pre` bytes of the buffer
+    before the first item (a view starting inside its base), arbitrary `fill` bytes around the items.  `Rep.build`
+    lays the values out accordingly; the bytes sent are the same for any two such representations and are the
+    reference encoding.  (Fortran order, reversed, transposed and first-axis-strided views: covered by
+    `C05_representation_independent`, which quantifies over all strides; not realised by this builder.) -/
+theorem C05_representation_independent_built (ty : Ty) (n : Nat) (sh : List Nat) (vs : List Int) (r1 r2 : Rep)
+    (h1 : tyOfNumpyChar r1.char.code = some ty) (h2 : tyOfNumpyChar r2.char.code = some ty)
+    (s1 : 1 ≤ r1.step) (s2 : 1 ≤ r2.step) (hlen : vs.length = prod (n :: sh))
+    (hv1 : ∀ v ∈ vs, r1.char.holds v = true) (hv2 : ∀ v ∈ vs, r2.char.holds v = true)
+    (hwf : WF (.base ty (n :: sh)) (.array (vs.map Val.num)) = true) :
+    encArr (r1.build (n :: sh) vs) = encArr (r2.build (n :: sh) vs) ∧
+    encArr (r1.build (n :: sh) vs) = .ok (XdrSpec.enc (.base ty (n :: sh)) (.array (vs.map Val.num))) := by
+  have hold : ∀ (r : Rep), tyOfNumpyChar r.char.code = some ty → 1 ≤ r.step → (∀ v ∈ vs, r.char.holds v = true) →
+      Holds (r.build (n :: sh) vs) ty (n :: sh) (.array (vs.map Val.num)) := by
+    intro r hty hs hv
+    refine ⟨hty, rfl, ?_⟩
+    unfold NpArr.data?
+    have hsh : (r.build (n :: sh) vs).shape = n :: sh := rfl
+    rw [hsh, build_elems r (n :: sh) vs hs hlen hv]
+    simp only [List.isEmpty_cons, Bool.false_eq_true, if_false]
+    rw [valsOf_nums]; rfl
+  exact C05_representation_independent _ _ ty (n :: sh) _ (hold r1 h1 s1 hv1) (hold r2 h2 s2 hv2) hwf
+
 /-- **every numeric representation exists**: the C-contiguous array `storeC` builds from in-range values in any
     numeric dtype char of the table, either byte order and any shape holds exactly those values (so the theorems
     above are not vacuous for any dtype char × byte order × shape) -/
@@ -408,6 +434,13 @@ example : encArr exRepS = encArr exRepU ∧ encArr exRepS = .ok [0, 0, 0, 2, 0, 
   decide
 example : Holds (storeC .d true [] [4607182418800017408]) .float64 [] (.scalar (.num 4607182418800017408)) :=
   ⟨by decide, by decide, by rfl⟩
+/-- [1, -2, 3] (Int16) as contiguous little-endian int16, and as every third item of an int8 buffer, the view
+    starting 5 bytes into its base and the gaps holding 0xEE -/
+example : encArr ((Rep.mk .h false 1 0 0).build [3] [1, -2, 3]) = encArr ((Rep.mk .b true 3 5 0xEE).build [3] [1, -2, 3]) :=
+  (C05_representation_independent_built .int16 3 [] [1, -2, 3] _ _ (by decide) (by decide) (by decide) (by decide)
+    (by decide) (by decide) (by decide) (by decide)).1
+example : ((Rep.mk .b true 3 5 0xEE).build [3] [1, -2, 3]).buf
+    = [0xEE, 0xEE, 0xEE, 0xEE, 0xEE, 1, 0xEE, 0xEE, 0xFE, 0xEE, 0xEE, 3, 0xEE, 0xEE] := by decide
 /-- int64 little-endian and int32 big-endian, values within 32 bits: both hold [7, -1] as Int32, same bytes -/
 example : encArr (storeC .l false [2] [7, -1]) = encArr (storeC .i true [2] [7, -1]) :=
   (C05_representation_independent _ _ .int32 [2] _
